@@ -25,6 +25,7 @@ through port getters that fill memory, so this translator has a small BYTE-LEVEL
   * integer expressions as in c2lean.py: unsigned arithmetic of width n is `Nat` arithmetic followed by `% 2^n` (width from the type
     clang computed AFTER the usual arithmetic conversions), signed arithmetic is `Int` arithmetic (overflow not modelled);
   * control flow: straight-line code, `if` / `else`, early `return` (what follows a possible `return` is guarded by `s.done`);
+  * a `static` local is accepted only when `const` (it is then its initialiser); a mutable one keeps state between calls and is refused;
   * ANYTHING ELSE raises `Unsupported`: the check then reports the tie as broken instead of guessing.
 
 Trusted: clang's AST, this file, the layout probe, the four helpers `CSem.le / unle / rd / wr`.
@@ -718,6 +719,8 @@ class Fn:
 
     def decl_var(self, v, lines):
         nm = v['name']
+        if v.get('storageClass') == 'static' and not re.search(r'\bconst\b', v['type'].get('qualType', '')):
+            self.fail('the local %s is static and not const: it keeps its value between calls, which this translation (one call = one state) does not model' % nm)
         kd = C.kind_of(v['type'])
         init = [c for c in v.get('inner', []) if isinstance(c, dict) and c.get('kind') not in (None,) and 'Attr' not in c.get('kind', '')]
         if kd[0] == 'ptr' and C.kind_of(kd[1]) [0] == 'struct' and C.kind_of(kd[1])[1] in ORACLES.values():
